@@ -784,6 +784,105 @@ def c01_phi_1D_genic():
     return go()
 
 
+def c01_phi_1D_general_h():
+    """PhiManip.phi_1D for h != 1/2 on a 4-point [0,1] grid, all of nu, theta0, gamma, beta, h symbolic; scipy.integrate.quad by its axiom (it returns
+    the integral of the function it is given over the limits it is given; every call checked for integrand and limits by applying the integrand
+    object to a fresh symbol).  With G = gamma nu 4beta/(beta+1)^2, Q(x) = 4 G h x + 2 G (1-2h) x^2, F = nu theta0 4beta/(beta+1)^2:
+      * the overflow guard tests exp(-2G) of the SAME rescaled G the integrands use: Qadjust = -2G iff G < 0 and exp(-2G) overflows, else 0
+        (whether exp overflows is an uninterpreted predicate of its argument);
+      * G < 0:  I0 = int_0^1 exp(-Q - Qadjust),  I(x) = int_x^1 exp(-Q - Qadjust);   interior phi = F exp(Q(x)) I(x) / I0 / (x(1-x))
+      * G >= 0: I0 as above with Qadjust = 0,  I(x) = int_x^1 exp(-(Q(xi) - Q(x))) dxi;  interior phi = F I(x) / I0 / (x(1-x))
+      * phi[0] = phi[1];  phi[-1] = F / I0 when Qadjust = 0, F min(raw phi[-1], phi[-2]) otherwise."""
+    oid = 'C01/PhiManip.py:phi_1D/general-h'
+    fn = 'dadi/PhiManip.py::phi_1D'
+
+    @guarded(oid, fn)
+    def go():
+        n = 4
+        xs = [z3.RealVal(0)] + reals('x', n - 2) + [z3.RealVal(1)]
+        nu, th, g, beta, h = z3.Reals('nu theta0 gamma beta h')
+        hy = [xs[i] < xs[i + 1] for i in range(n - 1)] + [nu > 0, th > 0, beta > 0, g != 0, h != z3.RealVal(1) / 2]
+        E = uf('exp')
+        OVF = z3.Function('exp_overflows', E.domain(0), z3.BoolSort())
+        G = g * nu * 4 * beta / ((beta + 1) * (beta + 1))
+        F = nu * th * 4 * beta / ((beta + 1) * (beta + 1))
+        Q = lambda x: 4 * G * h * x + 2 * G * (1 - 2 * h) * x * x
+        quads = []
+
+        def ah(ex_, fref, a, kw, ctx):
+            if 'quad' in vrepr(fref):
+                I = z3.Real('I%d' % (len(quads) + 1))
+                quads.append(dict(f=a[0], lo=a[1], hi=a[2], args=kw.get('args', a[3] if len(a) > 3 else ()), I=I))
+                t = Tm('quadres')
+                t.attrs['__items__'] = [I, Tm('err')]
+                t.attrs['__len__'] = 2
+                return t
+            return NotImplemented
+        ex = Executor(max_paths=64)
+        ex.model_exp_overflow = True
+        ex.abstract_hook = ah
+        f = ex.func('dadi/PhiManip.py', 'phi_1D')
+
+        def thunk(e):
+            del quads[:]
+            r = e.apply(f.node, None, f.mod, [VList(list(xs), 'ndarray')], dict(nu=nu, theta0=th, gamma=g, beta=beta, h=h), 'phi_1D')
+            # apply every integrand object to a fresh symbol while the path is still live
+            xi = z3.Real('xi')
+            for q in quads:
+                extra = list(e.iterate(q['args'])) if q['args'] not in ((), None) else []
+                q['at_xi'] = exact(e.call(q['f'], [xi] + extra, {}))
+            return r, [dict(q) for q in quads]
+        paths = ex.explore(thunk, base_pc=hy)
+        out = []
+        rets = [p for p in paths if p.outcome == 'return']
+        out.append(struct(oid + '.paths', len(rets) == 3 and len(paths) == 3, '%d paths (G >= 0; G < 0 with / without the overflow guard)' % len(paths), fn,
+                          undecided=len(rets) != 3, finding_key='C01/phi_1D/general-h'))
+        from vf import smt
+        xi = z3.Real('xi')
+        for k, p in enumerate(rets):
+            v, qs = p.value
+            pc = list(p.pc)
+            o = '%s.path%d' % (oid, k)
+            neg = smt.check(pc, G < 0, timeout_ms=3000, use_cli=False)['status'] == 'proved'
+            pos = smt.check(pc, G >= 0, timeout_ms=3000, use_cli=False)['status'] == 'proved'
+            if not (neg or pos) or not isinstance(v, VList) or len(v.items) != n or len(qs) != n + 1:
+                out.append(struct(o, False, 'path does not decide the sign of the rescaled gamma, or unexpected shape / %d quad calls' % len(qs), fn, undecided=True))
+                continue
+            guarded_ = neg and smt.check(pc, OVF(-2 * G), timeout_ms=3000, use_cli=False)['status'] == 'proved'
+            unguarded = pos or smt.check(pc, z3.Not(OVF(-2 * G)), timeout_ms=3000, use_cli=False)['status'] == 'proved'
+            tag = 'G>=0' if pos else ('G<0.guarded' if guarded_ else 'G<0')
+            out.append(struct('%s.%s.guard' % (o, tag), guarded_ or unguarded,
+                              'the overflow guard is decided by exp(-2G) of the rescaled G' if (guarded_ or unguarded) else
+                              'on this path the guard tested something other than exp(-2G) with G = gamma nu 4beta/(beta+1)^2: %s' % [str(c)[:90] for c in pc if 'exp_overflows' in str(c)],
+                              fn, finding_key='C01/phi_1D/overflow-guard'))
+            if not (guarded_ or unguarded):
+                continue
+            Qadj = -2 * G if guarded_ else z3.RealVal(0)
+            goals = [(to_real(exact(qs[0]['lo'])) == 0, 'I0 lower limit'), (to_real(exact(qs[0]['hi'])) == 1, 'I0 upper limit'),
+                     (to_real(qs[0]['at_xi']) == E(-Q(xi) - Qadj) if True else None, 'I0 integrand')]
+            for j in range(n):
+                q = qs[1 + j]
+                goals.append((to_real(exact(q['lo'])) == xs[j], 'I(x%d) lower limit' % j))
+                goals.append((to_real(exact(q['hi'])) == 1, 'I(x%d) upper limit' % j))
+                want_f = E(-Q(xi) - Qadj) if neg else E(-(Q(xi) - Q(xs[j])))
+                goals.append((to_real(q['at_xi']) == want_f, 'I(x%d) integrand' % j))
+            mm = discharge(goals, pc)
+            out.append(struct('%s.%s.integrals' % (o, tag), mm is None, mm or 'I0 and I(x_j): integrands and limits as specified', fn, finding_key='C01/phi_1D/general-h'))
+            I0 = qs[0]['I']
+            raw = lambda j: (E(Q(xs[j])) * qs[1 + j]['I'] / I0) if neg else qs[1 + j]['I'] / I0
+            hyp = pc + [I0 != 0]
+            for j in range(1, n - 1):
+                out.append(prove_eq('%s.%s.phi[%d]' % (o, tag, j), hyp, v.items[j], F * raw(j) / (xs[j] * (1 - xs[j])), func=fn, timeout_ms=30000, finding_key='C01/phi_1D/general-h'))
+            out.append(prove_eq('%s.%s.phi[0]=phi[1]' % (o, tag), hyp, v.items[0], v.items[1], func=fn, finding_key='C01/phi_1D/general-h'))
+            if guarded_:
+                a_, b_ = raw(n - 1), raw(n - 2) / (xs[n - 2] * (1 - xs[n - 2]))
+                out.append(prove_eq('%s.%s.phi[-1]' % (o, tag), hyp, v.items[n - 1], F * z3.If(a_ <= b_, a_, b_), func=fn, timeout_ms=30000, finding_key='C01/phi_1D/general-h'))
+            else:
+                out.append(prove_eq('%s.%s.phi[-1]' % (o, tag), hyp, v.items[n - 1], F / I0, func=fn, timeout_ms=30000, finding_key='C01/phi_1D/general-h'))
+        return out
+    return go()
+
+
 # ---------------------------------------------------------------- C03 / C04: mutation influx
 def c04_inject(K):
     """_inject_mutations_KD: for every flag pattern, phi changes exactly at the unit vectors e_k of the populations that are neither
